@@ -19,7 +19,7 @@ from vf.xmodel import Schema, Rop, Shadow, Bound
 SHARDS = {'quick': 16, 'thorough': 64}
 TIMEOUT = {'quick': 1500, 'thorough': 7200}
 MUST_HIT = ['Call.python-function', 'Call.python-bridge', 'Call.python-class-operation',
-            'Call.derived-attribute-early-bare-return', 'Call.builtin-external-entity', 'Call.legacy-keyword-bridge', 'Call.legacy-keyword-transform', 'Call.python-instance-operation', 'Call.derived-attribute', 'Call.derived-attribute-outside-state', 'Call.enumerator', 'Call.constant',
+            'Call.derived-attribute-early-bare-return', 'Call.earlier-component-rechecked', 'Call.builtin-external-entity', 'Call.legacy-keyword-bridge', 'Call.legacy-keyword-transform', 'Call.python-instance-operation', 'Call.derived-attribute', 'Call.derived-attribute-outside-state', 'Call.enumerator', 'Call.constant',
             'Call.nested', 'Call.recursive', 'Call.bare-return', 'Call.no-return', 'Call.in-where-clause',
             'Call.in-loop-condition', 'Scope.caller-variable-kept', 'State.compared']
 MUST_REACH = ['bridgepoint/ooaofooa.py:mk_function', 'bridgepoint/ooaofooa.py:mk_bridge',
@@ -96,6 +96,7 @@ def call_node(e, args, target=None):
 
 
 LEGACY = {}
+PREVIOUS = []
 DER_FORMS = {}
 
 
@@ -491,6 +492,23 @@ def run_case(ctx, rng):
     for i in range(rng.randint(0, 2)):
         bound.new('K2', der=rng.randint(1, 9))
         ids[0] += 1
+    # the component of the previous case is still alive: building this one must not have changed what its
+    # names stand for
+    if PREVIOUS:
+        ctx.hit('Call.earlier-component-rechecked')
+        old_comp, old_enum, old_consts = PREVIOUS.pop()
+        en0 = old_comp.find_symbol(old_enum[0])
+        for i, n in enumerate(old_enum[1]):
+            if getattr(en0, n) != i:
+                raise Mismatch('enumerator/position', 'after another component was built, enumerator %s of the '
+                               'earlier one reads %r; its position in its modelled order %r is %d'
+                               % (n, getattr(en0, n), old_enum[1], i))
+        for n, ty, v in old_consts:
+            got = old_comp.find_symbol(n)
+            if got != v or type(got) is not type(v):
+                raise Mismatch('constant/value', 'after another component was built, constant %s of the earlier '
+                               'one reads %r, modelled %r' % (n, got, v))
+    PREVIOUS.append((comp, gen.enum, gen.consts))
     # constants and enumerators read from Python
     ctx.hit('Call.enumerator')
     en = comp.find_symbol(gen.enum[0])
